@@ -23,6 +23,10 @@ import (
 // Schema is a GraphQL schema.
 type Schema struct {
 	Object
+
+	// implied is true if the schema was formed from the Query, Mutation,
+	// and Subscription types and not given by a schema block.
+	implied bool
 }
 
 // Rank of the type.
